@@ -832,15 +832,17 @@ pub fn run(tier: &str) -> i32 {
     let seeds: Vec<u64> = (0..n).map(|_| rng.next()).collect();
     run_parallel(n, workers(), |i| {
         rep.eval(1);
-        let r = if i % 6 == 5 {
-            scripted(seeds[i], &rep)
-        } else if i % 12 == 3 {
-            hung_replica_and_impatient_clients(seeds[i], &rep)
-        } else if i % 6 == 4 {
-            scripted_multishard(seeds[i], &rep)
-        } else {
-            random_faults(seeds[i], thorough, &rep)
-        };
+        let r = rep.realtime_scenario(|| {
+            if i % 6 == 5 {
+                scripted(seeds[i], &rep)
+            } else if i % 12 == 3 {
+                hung_replica_and_impatient_clients(seeds[i], &rep)
+            } else if i % 6 == 4 {
+                scripted_multishard(seeds[i], &rep)
+            } else {
+                random_faults(seeds[i], thorough, &rep)
+            }
+        });
         if let Err(e) = r {
             rep.inconclusive(&e);
         }
